@@ -88,6 +88,7 @@ type SpecFunc struct {
 type GhostVar struct {
 	Name, Type string
 	Init       string
+	PkgPath    string
 }
 
 type LemmaSpec struct {
@@ -304,7 +305,7 @@ func (ss *SpecSet) loadFile(path, pkgPath string) error {
 				typ = strings.TrimSpace(r3[:j])
 				init = strings.TrimSpace(r3[j+1:])
 			}
-			ss.Ghosts[name] = &GhostVar{Name: name, Type: typ, Init: init}
+			ss.Ghosts[name] = &GhostVar{Name: name, Type: typ, Init: init, PkgPath: pkgPath}
 		case "func":
 			key, params, err := parseFuncHeader(rest)
 			if err != nil {
